@@ -72,3 +72,20 @@ MUTANTS += [
     {"name": "c13-result-ttl-dropped", "checks": ["C13"],
      "edits": [(P, "                exception=None,\n                timestamp=datetime.now(),\n                ttl=result_params.ttl,", "                exception=None,\n                timestamp=datetime.now(),\n                ttl=None,")]},
 ]
+MC = "repid/connections/in_memory/consumer.py"
+RC = "repid/connections/redis/consumer.py"
+AB = "repid/connections/rabbitmq/message_broker.py"
+MUTANTS += [
+    {"name": "c05-mem-due-comparison-flipped", "checks": ["C05"],
+     "edits": [(MC, "            if time_ < now:", "            if time_ > now:")]},
+    {"name": "c05-redis-lookahead-5s", "checks": ["C05"],
+     "edits": [(RC, "                    end=unix_time(),  # maximum score", "                    end=unix_time() + 5,  # maximum score")]},
+    {"name": "c05-amqp-expiration-in-seconds", "checks": ["C05"],
+     "edits": [(AB, "                (delayed - datetime.now()).total_seconds() * 1000,", "                (delayed - datetime.now()).total_seconds(),")]},
+    {"name": "c05-mem-no-periodic-update", "checks": ["C05"],
+     "edits": [(MC, "                counter -= self.UPDATE_DELAYED_EVERY\n                self.__update_delayed()", "                counter -= self.UPDATE_DELAYED_EVERY")]},
+    {"name": "c05-mem-update-every-5s", "checks": ["C05"],
+     "edits": [(MC, "    UPDATE_DELAYED_EVERY = 1.0", "    UPDATE_DELAYED_EVERY = 5.0")]},
+    {"name": "c05-amqp-delayed-to-main-queue", "checks": ["C05"],
+     "edits": [(AB, "            routing_key=self.qnc(key.queue, delayed=exp is not None),", "            routing_key=self.qnc(key.queue, delayed=False),")]},
+]
